@@ -16,4 +16,10 @@ def run(ck):
     # datagrams carried inline over a stream hop (HTTP / QUIC): each frame comes out once, whole, whatever the segmentation
     ck.plans.append(codec.replay_plan)
     codec.spec_stream_frame_reader(ck, nreads=3 if ck.tier == 'quick' else 5)
-    ck.post_filter = lambda o: o.label.startswith(('C10/', 'C12/stream-frames/')) or o.status in ('undecided', 'vacuous', 'inconclusive')
+    # the datagram codecs themselves: what a hop writes for a datagram (SOCKS5-UDP header, RPFM frame) decodes to the same
+    # destination and the same payload, for every destination and every payload length including 0 (shared with C03)
+    codec.spec_socks_udp_roundtrip(ck)
+    codec.spec_rpfm_roundtrip(ck)
+    keep = ('C10/', 'C12/stream-frames/', 'C03/socks-udp/encoded-frame-decodes', 'C03/socks-udp/decoded-destination-equals-sent', 'C03/socks-udp/payload-exact',
+            'C03/rpfm/decoded-destination-equals-sent-or-error', 'C03/rpfm/body-not-mixed-with-address')
+    ck.post_filter = lambda o: o.label.startswith(keep) or o.status in ('undecided', 'vacuous', 'inconclusive')
